@@ -69,6 +69,26 @@ CLAIMED = {
              "detector on the sampled schedules.",
         tech="Rocq proof (ownership invariant of the pool simulation; mutex discipline of the shared options and cache, over all interleavings) + race-detector correspondence",
         ref="DESIGN.md 5/C05"),
+    "C07": dict(
+        text="Partial, by design. Coq theorems over a byte-level transcription of the visited-path heuristic and of the sites that "
+             "consume the schema walk's result: the (repaired) parameter site tolerates the nil result; the remaining unguarded site "
+             "(response schemas, path = status code or 'default') cannot receive nil because a path without dots is never taken for a "
+             "visited one; before the repair a body parameter named a.a dereferenced nil (witness). Tie: every fixture, grammar "
+             "documents and structural edits (dotted / empty names, null members, dangling or sibling-carrying references, retyped "
+             "members) validated in both modes under recover; the heuristic itself is compared with its model on random paths.",
+        note=TB + "No axioms. Panics inside go-openapi/loads, analysis and spec are outside the model; the run exercises them.",
+        tech="Rocq proof (nil-result sites of the default/example validators over a byte-level visited-path model) + outcome correspondence on edited documents",
+        ref="DESIGN.md 5/C07"),
+    "C10": dict(
+        text="Coq theorems over the orchestration of SpecValidator.Validate (stage merges with the three stop-early checkpoints, final "
+             "warnings bookkeeping, required-definitions loop): errors(stop-early) is a subset of errors(continue) for any stage results; "
+             "the bookkeeping leaves errors alone and validity is the absence of errors; returned warnings = attached warnings; with "
+             "continue-on-errors the required-definitions messages are the same for every permutation of the definitions; in stop-early "
+             "mode the report depends on the order (witness) - the repaired code fixes the order. Tie: each document validated in both "
+             "modes, repeated in-process (fresh map orders) and as member-order variants; all five clauses checked on the Go output.",
+        note=TB + "No axioms. The stage results themselves are inputs of the orchestration model (the stages are modelled under C03/C09/C02).",
+        tech="Rocq proof (orchestration over ordered-set results; permutation invariance) + repetition / variant correspondence",
+        ref="DESIGN.md 5/C10"),
     "C08": dict(
         text="Coq theorems: a validator object built without recycling is unchanged by any history of validations and its n-th call "
              "returns what a freshly built validator returns on that value; repetition gives the same; with recycling the object is "
